@@ -1520,6 +1520,7 @@ class SProg:
         self.fills = self.jax = self.err = self.model = self.ort = None
         self.tab = self.prog = self.out = self.real = self.keys = None
         self.type_errors = None
+        self.conv_dtype = None
         self.s_job = self.j_job = self.o_job = None
 
 
@@ -1560,6 +1561,8 @@ def struct_corpus(tier):
     add("jnp_concat", "concatenate([x, y], axis=0) - 1", lambda x, y: jnp.concatenate([x, y], axis=0) - 1, [(2, 3), (1, 3)])
     add("slice", "x[1:, ::2] - y", lambda x, y: x[1:, ::2] - y, [(3, 5), (2, 3)])
     add("lax_slice", "lax.slice(x, (0,1), (2,3)) ^ y", lambda x, y: lax.slice(x, (0, 1), (2, 3)) ^ y, [(2, 4), (2, 2)])
+    add("jnp_sum_i8", "sum(x, axis=0) [int8 -> int32]", lambda x: jnp.sum(x, axis=0), [(3, 2)], "int8")
+    add("jnp_sum_bool", "sum(x > y, axis=1) [bool -> int32]", lambda x, y: jnp.sum(x > y, axis=1), [(2, 3), (3,)])
     add("arange", "ravel(x) + arange(6)", lambda x: jnp.ravel(x) + jnp.arange(6, dtype=jnp.int32), [(2, 3)])
     add("iota2", "x * broadcasted_iota((2,3), 0) + iota(3)",
         lambda x: x * lax.broadcasted_iota(jnp.int32, (2, 3), 0) + lax.iota(jnp.int32, 3), [(2, 3)])
@@ -1575,6 +1578,12 @@ def struct_corpus(tier):
         add("lax_max_uint8", "lax.reduce_max(x, (0,)) [uint8]", lambda x: lax.reduce_max(x, axes=(0,)), [(3, 2)], "uint8")
         for dt_ in ("int16", "uint16"):
             add(f"lax_min_{dt_}", f"lax.reduce_min(x, (0,)) [{dt_}]", lambda x: lax.reduce_min(x, axes=(0,)), [(3, 2)], dt_)
+        add("jnp_sum_int16", "sum(x, axis=1) [int16 -> int32]", lambda x: jnp.sum(x, axis=1), [(2, 3)], "int16")
+        for dt_ in ("int8", "int16", "uint8", "uint16"):
+            add(f"jnp_prod_{dt_}", f"prod(x, axis=1) [{dt_}, promoted by JAX]", lambda x: jnp.prod(x, axis=1), [(2, 3)], dt_, small=2)
+        add("jnp_prod_bool", "prod(x > 0, axis=0) [bool -> int32]", lambda x: jnp.prod(x > 0, axis=0), [(3, 2)])
+        add("jnp_max_int16", "max(x, axis=1) [int16]", lambda x: jnp.max(x, axis=1), [(2, 3)], "int16")
+        add("jnp_min_uint16", "min(x, axis=0) [uint16]", lambda x: jnp.min(x, axis=0), [(3, 2)], "uint16")
         add("lax_min_int32", "lax.reduce_min(x, (1,2))", lambda x: lax.reduce_min(x, axes=(1, 2)), [(2, 2, 3)])
         add("lax_and_or", "lax.reduce_and(x > 0, (0,)) | lax.reduce_or(y < 0, (1,))",
             lambda x, y: lax.reduce_and(x > 0, axes=(0,)) | lax.reduce_or(y < 0, axes=(1,)), [(3, 2), (2, 3)])
@@ -1685,6 +1694,8 @@ def sprog_model(sp):
     specs = [jax.ShapeDtypeStruct(sh, np.dtype(sp.dt)) for sh in sp.shapes]
     with ca._activate_plugin_worlds():
         cj = jax.make_jaxpr(sp.fn)(*specs)
+    if len(cj.out_avals) == 1:
+        sp.conv_dtype = str(np.dtype(cj.out_avals[0].dtype))        # the result type in the converter's own trace
     if cj.consts:
         raise Unrecognised("closed jaxpr with constants")
     nin, eqns, out, counter = flatten_jaxpr(cj.jaxpr)
@@ -1756,18 +1767,31 @@ def sprog_model(sp):
                 if src != "bool" or out_dt != "bool":
                     raise Unrecognised(f"{prim} on {src}")
                 emit(f"{p}@{list(axes)}/{rank}", f"G{'ReduceAnd' if rk == 'RAnd' else 'ReduceOr'} {mask}", [operand(ins[0])], o)
-            elif src not in INT_DTYPES or out_dt not in INT_DTYPES:
+            elif out_dt not in INT_DTYPES or (src not in INT_DTYPES and src != "bool"):
                 raise Unrecognised(f"{prim} {src} -> {out_dt}")
-            elif rk == "RSum" and (req or src) in work["sum64"]:
-                emit(f"{p}:{src}>{out_dt}@{list(axes)}/{rank}", f"GReduceSum64 {sb_lit(out_dt)} {mask}", [operand(ins[0])], o)
-            elif rk == "RProd" and (req or src) in work["prod64"]:
-                emit(f"{p}:{src}>{out_dt}@{list(axes)}/{rank}", f"GReduceProd64 {sb_lit(out_dt)} {mask}", [operand(ins[0])], o)
-            elif rk in ("RMax", "RMin") and src in work["mm32"] and src == out_dt:
-                emit(f"{p}:{src}@{list(axes)}/{rank}", f"GReduce{rk[1:]}32 {sb_lit(src)} {mask}", [operand(ins[0])], o)
-            elif req is None and src == out_dt:
-                emit(f"{p}:{src}@{list(axes)}/{rank}", f"GReduce {rk} {sb_lit(src)} {mask}", [operand(ins[0])], o)
             else:
-                raise Unrecognised(f"{prim} {src} -> {out_dt} (dtype={req})")
+                # the type the plugin reduces in: the requested dtype, else the (promoted) result type (jnp.sum / jnp.prod
+                # promote bool and small integers; the plugins then cast to the result type first)
+                eff = req or (out_dt if src != out_dt else src)
+                key = f"{p}:{src}>{out_dt}@{list(axes)}/{rank}"
+                if src == "bool":
+                    if rk in ("RSum", "RProd") and eff == out_dt and not (rk == "RSum" and eff in work["sum64"]) \
+                            and not (rk == "RProd" and eff in work["prod64"]):
+                        emit(key, f"GReduceCastB {rk} {sb_lit(out_dt)} {mask}", [operand(ins[0])], o)
+                    else:
+                        raise Unrecognised(f"{prim} bool -> {out_dt} (dtype={req})")
+                elif rk == "RSum" and eff in work["sum64"]:
+                    emit(key, f"GReduceSum64 {sb_lit(out_dt)} {mask}", [operand(ins[0])], o)
+                elif rk == "RProd" and eff in work["prod64"]:
+                    emit(key, f"GReduceProd64 {sb_lit(out_dt)} {mask}", [operand(ins[0])], o)
+                elif rk in ("RMax", "RMin") and src in work["mm32"] and src == out_dt:
+                    emit(key, f"GReduce{rk[1:]}32 {sb_lit(src)} {mask}", [operand(ins[0])], o)
+                elif req is None and src == out_dt:
+                    emit(key, f"GReduce {rk} {sb_lit(src)} {mask}", [operand(ins[0])], o)
+                elif rk in ("RSum", "RProd") and eff == out_dt and src != out_dt:
+                    emit(key, f"GReduceCast {rk} {sb_lit(out_dt)} {mask}", [operand(ins[0])], o)
+                else:
+                    raise Unrecognised(f"{prim} {src} -> {out_dt} (dtype={req})")
         elif p == "iota":
             shp, dim_, dt_ = tuple(params["shape"]), int(params["dimension"]), str(np.dtype(params["dtype"]))
             if dt_ not in INT_DTYPES or ins:
@@ -2079,6 +2103,95 @@ def sprog_jobs(sp, jobs, ort_outs):
                             f"Eval vm_compute in bad_idx_ (fun c => opt_cten_is (sp_onnx {p}_tab {p}_prog (fst c) {sp.out}%nat) (snd c)) 0 {p}_rows.\n")
 
 
+# ------------------------------------------------------------------------------------------------ (g) explored: mean of integers
+# jnp.mean of integers / booleans is a float32 (JAX converts to float32, sums, divides): NOT an exact kernel, no theorem.
+# What IS checked, on rows of three elements reduced along axis 1 (and the same matrix along axis 0 through its transpose):
+#   - the exported model is valid ONNX and its result type is JAX's;
+#   - rows whose float32 sum is exact in ANY order (|x| <= 2**20): onnxruntime within 1 ulp of eager JAX (the only freedom
+#     left is division versus multiplication by the reciprocal);
+#   - boundary rows (min, max, ...): |onnxruntime - JAX| <= 3 * ulp(3 * max|x|), a bound that holds for every summation
+#     order of three float32 terms; it still separates a missing Cast, an integer division or a wrong axis from a correct model.
+# What is NOT claimed: bit equality, nor any bound for longer reductions.
+class XProg:
+    def __init__(self, pid, dt, axis):
+        self.id, self.dt, self.axis = pid, dt, axis
+        self.jax = self.model = self.err = self.ort = self.type_errors = None
+
+    def fn(self, x):
+        import jax.numpy as jnp
+        return jnp.mean(x, axis=self.axis)
+
+
+def explored_programs(tier):
+    dts = ["int32", "uint8", "int8"] if tier == "quick" else ["int8", "int16", "int32", "uint8", "uint16", "uint32"]
+    P = []
+    for dt in dts:
+        info = np.iinfo(dt)
+        sm = [v for v in (0, 1, 2, 3, 5, 7, 100, 2 ** 20, -1, -2, -7, -2 ** 20, 2 ** 20 - 1) if info.min <= v <= info.max]
+        exact = [(a_, b_, sm[(i_ + 2 * j_) % len(sm)]) for i_, a_ in enumerate(sm) for j_, b_ in enumerate(sm)]
+        bv = int_values(dt, small=True)
+        bound = [(a_, bv[(3 * i_ + 1) % len(bv)], bv[(5 * i_ + 2) % len(bv)]) for i_, a_ in enumerate(bv)]
+        for axis in ((1,) if tier == "quick" else (1, 0)):
+            xp = XProg(f"jnp_mean_axis{axis}", dt, axis)
+            mat = np.array(exact + bound, dtype=dt)
+            xp.n_exact = len(exact)
+            xp.x = mat if axis == 1 else np.ascontiguousarray(mat.T)
+            P.append(xp)
+    return P
+
+
+def explored_judge(ctx, xprogs):
+    n_ok = pts = 0
+    for xp in xprogs:
+        desc = f"jnp.mean(x, axis={xp.axis}) with x:{xp.dt}{list(xp.x.shape)}"
+        if xp.model is None or xp.jax is None:
+            ctx.oblige(f"explored:{xp.id}:{xp.dt}", False, "tie", f"{desc}: {xp.err}")
+            continue
+        rows = xp.x if xp.axis == 1 else xp.x.T
+        if xp.type_errors:
+            ctx.violate(f"explored:{xp.id}:{xp.dt}:onnx-type-invalid",
+                        f"{desc}: the exported model is not valid ONNX: {xp.type_errors}; JAX returns {xp.jax.dtype} "
+                        f"{xp.jax[:2].tolist()} for rows {rows[:2].tolist()}; nodes {structure(xp.model)}",
+                        {"kind": "explored", "id": xp.id, "dtype": xp.dt, "axis": xp.axis, "rows": rows[:2].tolist()})
+            continue
+        st, val = xp.ort
+        if st != "ran":
+            if st == "err" and "NOT_IMPLEMENTED" in val:
+                continue
+            ctx.violate(f"explored:{xp.id}:{xp.dt}:onnxruntime-rejects",
+                        f"{desc}: onnxruntime: {val[:300]}; JAX returns {xp.jax.dtype} {xp.jax[:2].tolist()} for rows "
+                        f"{rows[:2].tolist()}; nodes {structure(xp.model)}",
+                        {"kind": "explored", "id": xp.id, "dtype": xp.dt, "axis": xp.axis, "rows": rows[:2].tolist()})
+            continue
+        got = np.asarray(val[0])
+        if got.dtype != xp.jax.dtype or got.shape != xp.jax.shape:
+            ctx.violate(f"explored:{xp.id}:{xp.dt}:result-dtype",
+                        f"{desc}: JAX returns {xp.jax.dtype}{list(xp.jax.shape)}, the exported model {got.dtype}{list(got.shape)}; "
+                        f"nodes {structure(xp.model)}",
+                        {"kind": "explored", "id": xp.id, "dtype": xp.dt, "axis": xp.axis, "rows": rows[:2].tolist()})
+            continue
+        j64, g64 = xp.jax.astype(np.float64), got.astype(np.float64)
+        mx = np.abs(rows.astype(np.float64)).max(axis=1)
+        tol = np.where(np.arange(len(rows)) < xp.n_exact, np.spacing(np.abs(xp.jax)).astype(np.float64),
+                       3.0 * np.spacing((3.0 * mx).astype(np.float32)).astype(np.float64))
+        bad = np.nonzero(~(np.abs(j64 - g64) <= tol))[0]
+        pts += len(rows)
+        if len(bad):
+            i = int(bad[0])
+            ctx.violate(f"explored:{xp.id}:{xp.dt}:value-mismatch",
+                        f"{desc}: row {rows[i].tolist()}: exported model in onnxruntime gives {float(got[i])!r}, eager JAX gives "
+                        f"{float(xp.jax[i])!r} (allowed {float(tol[i])!r}; {len(bad)} of {len(rows)} rows differ); nodes {structure(xp.model)}",
+                        {"kind": "explored", "id": xp.id, "dtype": xp.dt, "axis": xp.axis, "rows": [rows[i].tolist()],
+                         "onnxruntime": float(got[i]), "jax": float(xp.jax[i])})
+        else:
+            n_ok += 1
+    ctx.coverage.update({"c01k_explored_mean_programs": len(xprogs), "c01k_explored_mean_within_tolerance": n_ok,
+                         "c01k_explored_mean_rows": pts,
+                         "c01k_explored_mean_claim": "valid ONNX, JAX's result type, onnxruntime within 1 ulp of JAX on rows with an "
+                                                     "order-independent exact float32 sum, within 3 ulp(3 max|x|) on boundary rows; "
+                                                     "no exactness theorem (float32 mean)"})
+
+
 # ------------------------------------------------------------------------------------------------ inventory of jax.numpy plugins
 # Every plugin registered under jax.numpy.* must be classified: PROVED (its integer lowering is a kernel of this check: tied
 # by tie S, proved, searched) or NOT_EXACT (explicitly outside the exact fragment, with the reason).  A plugin in neither
@@ -2201,6 +2314,7 @@ def run(ctx):
     progs = gen_programs(14 if tier == "quick" else 70, rng)
     for pg in progs:
         pg.fills = prog_fills(pg, rng, 4 if tier == "quick" else 10)
+    xprogs = explored_programs(tier)
     sprogs = struct_corpus(tier)
     for sp in sprogs:
         sp.fills = sprog_fills(sp, rng, sp.small + (3 if tier == "quick" else 8))
@@ -2225,6 +2339,13 @@ def run(ctx):
                     pg.jax = [np.asarray(pg.fn(*[jnp.asarray(a) for a in cols])) for cols in pg.fills]
                 except Exception as e:  # noqa: BLE001
                     pg.err = f"eager JAX: {type(e).__name__}: {e}"[:300]
+            if not flag:
+                for xp in xprogs:
+                    try:
+                        import jax.numpy as jnp
+                        xp.jax = np.asarray(xp.fn(jnp.asarray(xp.x)))
+                    except Exception as e:  # noqa: BLE001
+                        xp.err = f"eager JAX: {type(e).__name__}: {e}"[:300]
             for sp in sprogs:
                 if (sp.dt == "int64") != flag:
                     continue
@@ -2258,15 +2379,25 @@ def run(ctx):
                     pg.status, pg.err = "outside-fragment", str(e)
                 except Exception as e:  # noqa: BLE001
                     pg.err = f"export: {type(e).__name__}: {e}"[:300]
+            if not flag:
+                for xp in xprogs:
+                    if xp.err:
+                        continue
+                    try:
+                        import jax as _jax
+                        from jax2onnx import to_onnx as _to_onnx
+                        xp.model = _to_onnx(xp.fn, [_jax.ShapeDtypeStruct(xp.x.shape, xp.x.dtype)])
+                    except Exception as e:  # noqa: BLE001
+                        xp.err = f"export: {type(e).__name__}: {e}"[:300]
             for sp in sprogs:
                 if (sp.dt == "int64") != flag or sp.err:
                     continue
                 try:
                     import jax as _jax
                     from jax2onnx import to_onnx as _to_onnx
-                    sp.tab, sp.prog, sp.out, sp.nin, sp.keys = sprog_model(sp)
                     sp.model = _to_onnx(sp.fn, [_jax.ShapeDtypeStruct(sh, np.dtype(sp.dt)) for sh in sp.shapes],
                                         enable_double_precision=bool(flag))
+                    sp.tab, sp.prog, sp.out, sp.nin, sp.keys = sprog_model(sp)
                     sp.real = rtree_of_model(sp.model)
                 except Unrecognised as e:
                     sp.err = f"not recognised: {e}"
@@ -2404,15 +2535,15 @@ def run(ctx):
         pg.ort = pres[pi:pi + len(pg.fills)]
         pi += len(pg.fills)
     # ---- (f) traced programs with structural primitives: onnxruntime on the real exports, then the Coq evaluations
+    for sp in sprogs:
+        if sp.model is not None:
+            sp.type_errors = schema_type_errors(sp.model)
+    ort_sp = [sp for sp in sprogs if sp.model is not None and not sp.type_errors]
     live_sp = [sp for sp in sprogs if sp.real is not None]
-    for sp in live_sp:
-        sp.type_errors = schema_type_errors(sp.model)
-    items = [(sp.model.SerializeToString(), cols, False) for sp in live_sp if not sp.type_errors for cols in sp.fills]
+    items = [(sp.model.SerializeToString(), cols, False) for sp in ort_sp for cols in sp.fills]
     sres = ort_child(ctx, items, tag="ortsprog") if items else []
     si = 0
-    for sp in live_sp:
-        if sp.type_errors:
-            continue
+    for sp in ort_sp:
         sp.ort = sres[si:si + len(sp.fills)]
         si += len(sp.fills)
     for sp in live_sp:
@@ -2421,6 +2552,13 @@ def run(ctx):
             sprog_jobs(sp, jobs, outs)
         except Unrecognised as e:
             sp.err = f"cannot render: {e}"
+    # ---- (g) explored float-valued reductions: onnxruntime on the real exports
+    for xp in xprogs:
+        if xp.model is not None:
+            xp.type_errors = schema_type_errors(xp.model)
+    xrun = [xp for xp in xprogs if xp.model is not None and not xp.type_errors]
+    for xp, r_ in zip(xrun, ort_child(ctx, [(xp.model.SerializeToString(), [xp.x], False) for xp in xrun], tag="ortx") if xrun else []):
+        xp.ort = r_
     T["programs"] = round(_time.time() - t_, 1)
     t_ = _time.time()
 
@@ -2595,14 +2733,28 @@ def run(ctx):
     n_sp_tied = n_sp_jax = n_sp_onnx = n_sp_searched = sp_points = 0
     for sp in sprogs:
         desc = f"{sp.text} with {', '.join('xyz'[i] + ':' + sp.dt + str(list(sh)) for i, sh in enumerate(sp.shapes))}"
-        if sp.real is None or sp.s_job is None:
-            ctx.oblige(f"sprog:{sp.id}", False, "tie", f"traced program {desc}: {sp.err}"
-                       + (f"; nodes {structure(sp.model)}" if sp.model is not None else ""))
+        if sp.model is None or sp.jax is None:
+            ctx.oblige(f"sprog:{sp.id}", False, "tie", f"traced program {desc}: {sp.err}")
             continue
         if sp.type_errors:
             ctx.violate(f"sprogram:{sp.id}:{sp.dt}:onnx-type-invalid",
                         f"traced program {desc}: the exported model is not valid ONNX: {sp.type_errors}; nodes {structure(sp.model)}",
                         {"kind": "sprogram", "id": sp.id, "operands": [c.tolist() for c in sp.fills[0]]})
+            continue
+        jdt = str(np.asarray(sp.jax[0]).dtype)
+        if sp.conv_dtype is not None and sp.conv_dtype != jdt:
+            # the converter's own trace (its plugins' abstract evaluation) already disagrees with JAX about the result type
+            got0 = sp.ort[0][1][0] if sp.ort and sp.ort[0][0] == "ran" else None
+            ctx.violate(f"sprogram:{sp.id}:{sp.dt}:result-dtype",
+                        f"traced program {desc}: operands {[c.tolist() for c in sp.fills[0]]}: JAX returns {jdt} "
+                        f"{np.asarray(sp.jax[0]).tolist()}, the exported model returns {sp.conv_dtype}"
+                        + (f" {got0.tolist()}" if got0 is not None else "") + f"; nodes {structure(sp.model)}",
+                        {"kind": "sprogram", "id": sp.id, "operands": [c.tolist() for c in sp.fills[0]], "jax_dtype": jdt,
+                         "model_dtype": sp.conv_dtype, "nodes": structure(sp.model)})
+            sp.type_errors = sp.type_errors or ["result dtype"]          # a finding: not part of the tie denominators
+            continue
+        if sp.real is None or sp.s_job is None:
+            ctx.oblige(f"sprog:{sp.id}", False, "tie", f"traced program {desc}: {sp.err}; nodes {structure(sp.model)}")
             continue
         if results[sp.s_job] is True:
             n_sp_tied += 1
@@ -2646,7 +2798,7 @@ def run(ctx):
                         f"{got}, eager JAX gives {exp}; nodes {structure(sp.model)}",
                         {"kind": "sprogram", "id": sp.id, "operands": [c.tolist() for c in sp.fills[f_]], "onnxruntime": got, "jax": exp,
                          "nodes": structure(sp.model)})
-    n_sp_valid = len([sp for sp in sprogs if not (sp.real is not None and sp.type_errors)])     # invalid exports are findings
+    n_sp_valid = len([sp for sp in sprogs if not (sp.model is not None and sp.type_errors)])     # invalid exports are findings
     ctx.oblige(f"tieS:traced-program-graph-is-what-the-model-dispatcher-emits({n_sp_tied}/{n_sp_valid} programs)",
                n_sp_tied == n_sp_valid, "tie", "" if n_sp_tied == n_sp_valid else "see the tieS-sprogram / sprog obligations")
     ctx.coverage.update({"c01k_traced_programs": len(sprogs), "c01k_traced_programs_structure_tied": n_sp_tied,
@@ -2654,6 +2806,7 @@ def run(ctx):
                          "c01k_traced_programs_searched_in_onnxruntime": n_sp_searched, "c01k_traced_program_points": sp_points,
                          "c01k_traced_program_list": [sp.text for sp in sprogs],
                          "c01k_traced_program_equations": sorted({k_.split(":")[0].split("->")[0].split("@")[0] for sp in sprogs for k_ in (sp.keys or [])})})
+    explored_judge(ctx, xprogs)
     kernels_seen = sorted({v.k.name for v in live})
     ctx.coverage.update({
         "c01k_kernels": len(kernels_seen), "c01k_kernel_list": kernels_seen,
@@ -2714,6 +2867,34 @@ def _replay_program(r):
     return 0 if same else 1
 
 
+def _replay_explored(r):
+    import jax
+    import jax.numpy as jnp
+    from jax2onnx import to_onnx
+    xp = XProg(r["id"], r["dtype"], r["axis"])
+    rows = np.array(r["rows"], dtype=r["dtype"])
+    x = rows if xp.axis == 1 else np.ascontiguousarray(rows.T)
+    jx = np.asarray(xp.fn(jnp.asarray(x)))
+    model = to_onnx(xp.fn, [jax.ShapeDtypeStruct(x.shape, x.dtype)])
+    print("nodes:", structure(model))
+    print("eager JAX:", jx.dtype, jx.tolist())
+    terr = schema_type_errors(model)
+    if terr:
+        print("exported model is not valid ONNX:", terr, "-> still violated")
+        return 1
+    try:
+        got = np.asarray(_ort_run(model, {model.graph.input[0].name: x}))
+    except Exception as e:  # noqa: BLE001
+        print("onnxruntime:", str(e)[:300], "-> still violated")
+        return 1
+    print("onnxruntime:", got.dtype, got.tolist())
+    mx = np.abs(rows.astype(np.float64)).max(axis=1)
+    ok = got.dtype == jx.dtype and got.shape == jx.shape and bool(
+        (np.abs(got.astype(np.float64) - jx.astype(np.float64)) <= 3.0 * np.spacing((3.0 * mx).astype(np.float32)).astype(np.float64)).all())
+    print("-> ok" if ok else "-> still violated")
+    return 0 if ok else 1
+
+
 def _retree(t):
     """JSON turns the tuples of a program tree into lists; the children list (third field of an op) stays a list"""
     if t[0] == "op":
@@ -2728,6 +2909,8 @@ def replay(path):
     r = json.load(open(path))["replay"]
     if r.get("kind") in ("program", "sprogram"):
         return _replay_program(r)
+    if r.get("kind") == "explored":
+        return _replay_explored(r)
     ks = {k.name: k for k in _kernels()}
     k, dt = ks[r["kernel"]], r["dtype"]
     cols = []
